@@ -139,9 +139,10 @@ pub fn observe(ctx: &Ctx, st: &mut Stats, job: &Job) {
         Outcome::Ok(qr) => {
             st.count("outcome_ok", 1);
             st.reach("version_level_built", (qr.version.map(adapter::version_no).unwrap_or(0) * 4 + qr.ecl.map(adapter::level_no).unwrap_or(0)) as u64);
+            // whether this Ok is the RIGHT outcome (capacity, forced version) is C05's business;
+            // C10 only asks for "a QR code or one of the two documented errors"
             if want.is_err() {
-                flag(st, ID, ("ok-without-capacity".into(), format!("oracle says {:?} but a symbol was returned", want.as_ref().err())), job, false);
-                return;
+                st.count("ok_where_capacity_oracle_expected_an_error", 1);
             }
         }
         Outcome::TooBig => st.count("outcome_err_encoded_data", 1),
